@@ -91,3 +91,28 @@ Definition socks_session_eof (open_ok : dest -> N -> bool) (b : bytes) : list se
       if offers_noauth ms then SWrite (method_reply ms) :: socks_after_greeting_eof open_ok r
       else [SWrite (method_reply ms); SEnd]
   end.
+
+(* the same session over a transport that delivered `chunks` (TCP segments) and then either stays
+   open or was half-closed by the client; read_exact on a TcpStream loops over the segments exactly
+   like the reader of Model/Reader.v *)
+Definition socks_after_greeting_rd (open_ok : dest -> N -> bool) (st : rd) : list sev :=
+  match run_rd request_prog st with
+  | (_, SPending) => []
+  | (_, SFail _) => [SEnd]
+  | (st', SDone q) =>
+      if q_cmd q =? socks_cmd_connect then
+        SOpen (q_dest q) (q_port q) ::
+        (if open_ok (q_dest q) (q_port q)
+         then [SWrite (reply_bytes socks_reply_succeeded); STunnel (rd_pending_bytes st')]
+         else [SWrite (reply_bytes socks_reply_general_failure); SEnd])
+      else [SWrite (reply_bytes socks_reply_command_not_supported); SEnd]
+  end.
+
+Definition socks_session_rd (open_ok : dest -> N -> bool) (chunks : list bytes) (closed : bool) : list sev :=
+  match run_rd greeting_prog (rd_of_chunks chunks closed) with
+  | (_, SPending) => []
+  | (_, SFail _) => [SEnd]
+  | (st', SDone ms) =>
+      if offers_noauth ms then SWrite (method_reply ms) :: socks_after_greeting_rd open_ok st'
+      else [SWrite (method_reply ms); SEnd]
+  end.
